@@ -133,6 +133,19 @@ func (w *Watcher) readEvents() {
 		w.mu.Unlock()
 		if !have {
 			Yield("fsnotify.wait")
+			// prioritised polls first: a select over several ready cases would pick at random
+			select {
+			case <-w.done:
+				Yield("fsnotify.done")
+				return
+			default:
+			}
+			select {
+			case <-w.wake:
+				Yield("fsnotify.woken")
+				continue
+			default:
+			}
 			select {
 			case <-w.wake:
 			case <-w.done:
@@ -143,6 +156,12 @@ func (w *Watcher) readEvents() {
 			continue
 		}
 		Yield("fsnotify.send")
+		select {
+		case <-w.done:
+			Yield("fsnotify.done")
+			return
+		default:
+		}
 		select {
 		case w.Events <- ev:
 			Delivered++
